@@ -91,6 +91,9 @@ class FnExt(Fn):
         self.nattr = len(aparams)
         e["params"] = [("self", "Opaque")] + aparams + pp + [(v, "Bool") for v in e.get("symbolic", {}).values()]
         e["monadic"] = True
+        if e.get("normalize"):
+            from . import util as _U       # exact syntactic normalisations of the function's AST (harness/tie_ext/util.py)
+            fnode = _U.normalize_fn(fnode, e, module_src)
         Fn.__init__(self, e, module_src, fnode, done)
         self.skip = {ast.dump(ast.parse(s).body[0]) for s in e.get("skip", [])}
         self.static = {ast.dump(ast.parse(s).body[0].value): v for s, v in e.get("static", {}).items()}
@@ -666,7 +669,7 @@ ASC_ATTRS = [("_N", "self_N", "Nat"), ("_chain_length", "self_chain_length", "Na
              ("_min_strength", "self_min_strength", "Rat"), ("_max_strength", "self_max_strength", "Rat")]
 REGISTRY += [
     _mk(ASC_FILE, "AlternatingSectorsChain", ASC_ATTRS, "to_quso", "AlternatingSectorsChain_to_quso", [("pbc", "Bool")], "Problems4",
-        defaults=True, extra_theorems=["AlternatingSectorsChain_to_quso_default_eq_model"],
+        defaults=True, extra_theorems=["AlternatingSectorsChain_to_quso_default_eq_model"], normalize=("helper",),
         notes=["`ZeroDivisionError` of `// self._chain_length` (excluded by `__init__`: chain_length >= 2); the label `N - 1` is read as "
                "a natural number (`__init__`: N >= 1, the hypothesis of the theorem)"]),
 ]
